@@ -152,7 +152,7 @@ def run(load, doc, collect):
     from sigma.exceptions import SigmaError
 
     try:
-        obj = load(copy.deepcopy(doc), collect_errors=collect) if collect else load(copy.deepcopy(doc))
+        obj = load(doc, collect_errors=collect) if collect else load(doc)
     except SigmaError as e:
         return ("sigma", e, None)
     except RecursionError:
@@ -210,8 +210,10 @@ def judge(res, name, kind, doc, devs, via):
             text = yaml.safe_dump_all(d if isinstance(d, list) else [d], sort_keys=False)
             return SigmaCollection.from_yaml(text, collect_errors)
     try:
-        strict = run(load, doc, False)
-        coll = run(load, doc, True)
+        # each load gets its own copy: whether a loader may rewrite the document it is given is not part of the statement
+        # (the collection loader does so for 'action: global/repeat' documents)
+        strict = run(load, copy.deepcopy(doc), False)
+        coll = run(load, copy.deepcopy(doc), True)
     except yaml.YAMLError:
         return  # not YAML-representable (e.g. non-string key types yaml refuses): outside the quantifier
     res["outcomes"].add(h64([strict[0], coll[0]]))
